@@ -215,6 +215,7 @@ let gname = function
   | GReduceDefault -> "reduce-default" | GFlatRawWindow -> "flat-raw-window"
   | GShapeMisfit -> "shape-misfit"
   | GAliasedStorage -> "aliased-storage"
+  | GLateRefusal -> "late-refusal"
   | GOther -> "other"
 
 let operand_ids (o : string) : int list =
